@@ -69,6 +69,7 @@ Step ==
   \/ Ev("PeerFrame") /\ PeerFrame(Arg(1))
   \/ Ev("PeerCut") /\ PeerCut(Arg(1))
   \/ Ev("PeerClose") /\ PeerClose
+  \/ Ev("PeerHalfClose") /\ PeerHalfClose
   \/ Ev("Unmount") /\ Unmount
 
 Matched == Step /\ PostMatches /\ l' = l + 1 /\ UNCHANGED <<failed, case, done>>
